@@ -740,3 +740,137 @@ func standingAssumptions(prop string) []string {
 }
 
 func cmdSelftest(args []string) { runSelftest(args) }
+
+// ---- mutation support: which claimed clauses notice a change of one Go function (tools/mutation_run.py)
+
+func baseKey(k string) string {
+	if i := strings.IndexAny(k, "@#"); i >= 0 {
+		return k[:i]
+	}
+	return k
+}
+
+func allClaimed() map[string][]string {
+	out := map[string][]string{}
+	files, _ := filepath.Glob(filepath.Join(verifRoot, "claims", "C*.json"))
+	for _, f := range files {
+		p := strings.TrimSuffix(filepath.Base(f), ".json")
+		if c, err := loadClaims(p); err == nil {
+			for _, cl := range c.Clauses {
+				out[cl] = append(out[cl], p)
+			}
+		}
+	}
+	return out
+}
+
+// cmdInliners writes claims/_inliners.json: contract-less helper -> functions under contract whose VCs inline its body.
+func cmdInliners(args []string) {
+	fs := flag.NewFlagSet("inliners", flag.ExitOnError)
+	repo := fs.String("repo", envOr("GOVC_REPO", "/repo"), "repository")
+	fs.Parse(args)
+	eng, err := loadEngine(*repo)
+	if err != nil {
+		fmt.Fprintln(os.Stderr, "load:", err)
+		os.Exit(2)
+	}
+	dir := mkScratch()
+	defer os.RemoveAll(dir)
+	opts := solveOpts{dir: dir, quickT: 1, slowT: 1, workers: 16, only: map[string]bool{}}
+	inl := map[string][]string{}
+	for _, k := range eng.specs.Order {
+		ct := eng.specs.Contracts[k]
+		if ct.Kind != "func" || ct.Trusted {
+			continue
+		}
+		fr := verifyOne(eng, k, opts)
+		for _, h := range fr.Inlined {
+			inl[h] = append(inl[h], k)
+		}
+	}
+	writeJSON(filepath.Join(verifRoot, "claims", "_inliners.json"), inl)
+	fmt.Printf("%d helpers inlined somewhere\n", len(inl))
+}
+
+func cmdMutcheck(args []string) {
+	fs := flag.NewFlagSet("mutcheck", flag.ExitOnError)
+	fn := fs.String("f", "", "Go function (T.m or f)")
+	repo := fs.String("repo", envOr("GOVC_REPO", "/repo"), "repository")
+	fs.Parse(args)
+	eng, err := loadEngine(*repo)
+	if err != nil {
+		fmt.Println("MUT load-error", err)
+		os.Exit(3)
+	}
+	claimed := allClaimed()
+	only := map[string]bool{}
+	for c := range claimed {
+		only[c] = true
+	}
+	var keys []string
+	for _, k := range eng.specs.Order {
+		ct := eng.specs.Contracts[k]
+		if ct.Kind == "func" && !ct.Trusted && baseKey(k) == *fn {
+			keys = append(keys, k)
+		}
+	}
+	if len(keys) == 0 {
+		var inl map[string][]string
+		if b, err := os.ReadFile(filepath.Join(verifRoot, "claims", "_inliners.json")); err == nil {
+			json.Unmarshal(b, &inl)
+		}
+		keys = inl[*fn]
+	}
+	if len(keys) == 0 {
+		fmt.Println("MUT no-contract")
+		return
+	}
+	dir := mkScratch()
+	defer os.RemoveAll(dir)
+	opts := solveOpts{dir: dir, quickT: 4, slowT: 20, workers: 16, only: only}
+	caught := 0
+	nClaimed := 0
+	for _, k := range keys {
+		fr := verifyOne(eng, k, opts)
+		broken := fr.Vacuity == "vacuous" || len(fr.Unsupported) > 0
+		seen := map[string]bool{}
+		bad := map[string]string{}
+		for _, o := range fr.Obls {
+			if claimed[o.Clause] == nil {
+				continue
+			}
+			seen[o.Clause] = true
+			if o.Result != "unsat" || broken {
+				bad[o.Clause] = o.Result
+			}
+		}
+		if broken && claimed[k+"/verifiable"] != nil {
+			bad[k+"/verifiable"] = "unsupported"
+		}
+		// claimed clauses of this key that were not generated at all
+		for c := range claimed {
+			if strings.HasPrefix(c, k+"/") && !seen[c] && !strings.HasSuffix(c, "/verifiable") {
+				bad[c] = "vanished"
+			}
+		}
+		for c := range claimed {
+			if strings.HasPrefix(c, k+"/") {
+				nClaimed++
+			}
+		}
+		for _, c := range keysOfStr(bad) {
+			caught++
+			fmt.Printf("MUT caught %s [%s] %s\n", c, bad[c], strings.Join(claimed[c], ","))
+		}
+	}
+	fmt.Printf("MUT keys=%d claimed=%d caught=%d\n", len(keys), nClaimed, caught)
+}
+
+func keysOfStr(m map[string]string) []string {
+	var out []string
+	for k := range m {
+		out = append(out, k)
+	}
+	sort.Strings(out)
+	return out
+}
